@@ -68,7 +68,7 @@ CLAIMED["C09"] = dict(
 
 CLAIMED["C04"] = dict(
     category="exploration",
-    text="Every ordered arm list of length 0..k (k as large as a per-type budget allows; 25k matrices per type quick, 250k thorough) over all patterns of nesting depth <= 2, for 18 scrutinee types, is type-checked by the real checker and, when accepted, run on every enumerated value; the oracle is brute-force value enumeration (accept iff covered; reported missing patterns denote uncovered values and cover them all when not truncated; the first matching arm is taken). Comatches: every arm list of length <= 4 over codata with 0..3 destructors; generalized copatterns: every ordered list of <= 5 clauses over 8 spines (nested destructor paths, whole-subobject clauses, argument patterns; 37k lists) is accepted iff a reference says the observation tree is covered exactly once, and each observation selects the reference's clause.",
+    text="Every ordered arm list of length 0..k (k as large as a per-type budget allows; 25k matrices per type quick, 250k thorough) over all patterns of nesting depth <= 2, for 18 scrutinee types, is type-checked by the real checker and, when accepted, run on every enumerated value; the oracle is brute-force value enumeration (accept iff covered; reported missing patterns denote uncovered values and cover them all when not truncated; the first matching arm is taken). Comatches: every arm list of length <= 4 over codata with 0..3 destructors; generalized copatterns: every ordered list of <= 5 clauses over 8 spines (nested destructor paths, whole-subobject clauses, argument patterns; 37k lists) is accepted iff a reference says the observation tree is covered exactly once, and each observation selects the reference's clause. Binder patterns: every pattern of depth <= 2 over the same types in 5 binder constructs (820 one-row matrices) is accepted iff it matches every value.",
     design_ref="C04",
     note="Recursive types are enumerated to depth 3 (deeper than every pattern used). Alias patterns only with irrefutable members (the checker rejects others by design).",
     technique="bounded-exhaustive enumeration of pattern matrices with a brute-force value-enumeration oracle",
